@@ -59,8 +59,7 @@ def run_case(acc: Acc, seed: int, idx: int) -> None:
     from zorg.service import swog
 
     rng = rng_for(ID, seed, idx)
-    root = harness.fresh_dir("c06") / "org"
-    root.mkdir()
+    root = harness.notes_root("c06", idx)  # (some directories are reached through a symlink / a '..' component)
     opts = pg.GenOpts(max_items=3, max_blocks=2, allow_mod_without_zid=False, p_zid=rng.choice([0.3, 0.6, 1.0]))
     # half of the histories avoid the trigger of the known finding (page deletion / renaming)
     avoid = False  # the finding was repaired (see KNOWN_FINDINGS.json, status fixed); page deletion is always exercised
